@@ -18,16 +18,30 @@ def fix_exp(e):
 
 
 def evaluate(ctx, progs, cfg="MC_AnkoSem.cfg", timeout=1800):
-    """-> {id: exp} computed by TLC from AnkoSem"""
-    p = os.path.join(ctx.work, "progs.ndjson")
-    write_progs(p, progs)
+    """-> {id: exp} computed by TLC from AnkoSem.  (TLC with many workers is several times slower than with two on this
+    evaluation-heavy specification: the family is split over parallel TLC processes of two workers each.)"""
+    import concurrent.futures
     out = {}
-    def cb(v):
-        out[v["id"]] = fix_exp(v["exp"])
-    r = vlib.run_tlc(ctx, "MC_AnkoSem", cfg, timeout=timeout, copy=[p], line_cb=cb, xss="512m")
-    vlib.tlc_ok(ctx, r, "MC_AnkoSem (%d programs)" % len(progs))
+    chunk = 800
+    parts = [progs[k:k + chunk] for k in range(0, len(progs), chunk)] or [[]]
+    def one(k):
+        d = os.path.join(ctx.work, "eval_%d_%d" % (ctx.ntlc, k))
+        os.makedirs(d, exist_ok=True)
+        p = os.path.join(d, "progs.ndjson")
+        write_progs(p, parts[k])
+        got = {}
+        def cb(v):
+            got[v["id"]] = fix_exp(v["exp"])
+        r = vlib.run_tlc(ctx, "MC_AnkoSem", cfg, workers=2, timeout=timeout, copy=[p], line_cb=cb, xss="512m")
+        vlib.tlc_ok(ctx, r, "MC_AnkoSem (%d programs)" % len(parts[k]))
+        if len(got) != len(parts[k]):
+            raise Broken("AnkoSem produced %d outcomes for %d programs\n%s" % (len(got), len(parts[k]), r.out[-1500:]))
+        return got
+    with concurrent.futures.ThreadPoolExecutor(max_workers=6) as ex:
+        for got in ex.map(one, range(len(parts))):
+            out.update(got)
     if len(out) != len(progs):
-        raise Broken("AnkoSem produced %d outcomes for %d programs\n%s" % (len(out), len(progs), r.out[-1500:]))
+        raise Broken("AnkoSem produced %d outcomes for %d programs" % (len(out), len(progs)))
     return out
 
 
@@ -168,7 +182,16 @@ def run_family(ctx, binp, progs, tag, kinds=("semantic", "panic"), nconc=2, devi
 def replay_one(ctx, binp, path, nconc=3, env=None):
     p = json.load(open(path))
     case = {"id": p["id"], "prog": p["prog"], "exp": p["expected"], "unordered": p.get("unordered", False)}
+    js = json.dumps(p["prog"])
+    if vlib.open_findings(ctx, ctx.id) and '"k": "try"' in js and '"k": "return"' in js:
+        dev = evaluate(ctx, [{"id": p["id"], "prog": p["prog"]}], cfg="MC_AnkoSem_dev.cfg")
+        if dev.get(p["id"]) and dev[p["id"]] != p["expected"]:
+            case["alt"] = [{"key": "dev:TrySwallowsReturn", "exp": dev[p["id"]]}]
     r = single(ctx, binp, case, nconc=nconc, env=env)
+    for key in (r.get("known") or {}):
+        for f in vlib.open_findings(ctx, ctx.id):
+            if key in f.get("keys", []) or key.startswith("undecided:") and key[len("undecided:"):] in f.get("keys", []):
+                print("KNOWN-FINDING: property=%s %s%s" % (ctx.id, f["what"], " (this case passes a point the statements leave open under that deviation: not decided)" if key.startswith("undecided:") else ""))
     bad = any(x["kind"] == p["kind"] for x in r["mismatches"] or [])
     for x in r["mismatches"] or []:
         print(x["kind"], x["what"])
